@@ -16,6 +16,16 @@ pub fn generate(seed: u64, tier: &str, out: &mut dyn std::io::Write) {
         if grows {
             sc.args = vec!["-t".to_string(), Rng::for_case(seed, 1902, i).range(1, 4).to_string(), "-r".to_string(), "4096:u".to_string(), "-G".to_string()];
         }
+        // … or it maps two pages of a one-page file and the crash context's instruction pointer lies in the second: the
+        // memory around it cannot be read, the requests fail inside the thread-list writer — until the file has grown,
+        // before the last request
+        let bus = !grows && Rng::for_case(seed, 1905, i).chance(1, 5);
+        let bus_path = format!("{}/bus-{}-{}.bin", dir, seed, i);
+        if bus {
+            std::fs::write(&bus_path, vec![0x5au8; 4096]).unwrap();
+            sc.args = vec!["-t".to_string(), Rng::for_case(seed, 1906, i).range(1, 3).to_string(), "-M".to_string(),
+                format!("{}|-|0:2:rx", crate::rng::hex(bus_path.as_bytes()))];
+        }
         let t = match Target::spawn(&sc.args) {
             Ok(t) => t,
             Err(e) => {
@@ -30,6 +40,17 @@ pub fn generate(seed: u64, tier: &str, out: &mut dyn std::io::Write) {
             grow_at = reg + 4096;
             cfg.app_memory = vec![(reg + *Rng::for_case(seed, 1903, i).pick(&[0u64, 8, 4000]), 4096 + *Rng::for_case(seed, 1904, i).pick(&[1u64, 100, 4096]))];
         }
+        if bus {
+            if let Some(m) = t.desc["lmods"].as_array().and_then(|a| a.first()) {
+                let bt = &t.threads[0];
+                let mut c = CrashSpec { tid: bt.tid, signo: 7, code: 2, addr: 0, fp_seed: 1, ..Default::default() };
+                c.gregs[libc::REG_RIP as usize] = (m["addr"].as_u64().unwrap() + 4096 + 300) as i64; // the whole window lies behind the end of the file
+                c.gregs[libc::REG_RSP as usize] = t.read_u64(bt.regs_addr + 80) as i64;
+                cfg = DumpCfg::default();
+                cfg.blamed = bt.tid;
+                cfg.crash = Some(c);
+            }
+        }
         let k = r.range(2, 5);
         let mut w = writer_for(&t, &cfg);
         let mut imgs = Vec::new();
@@ -41,8 +62,8 @@ pub fn generate(seed: u64, tier: &str, out: &mut dyn std::io::Write) {
         let mut grown = false;
         for j in 0..k {
             let mut dest = RecDest::new(vec![], 0);
-            let disturb = j + 1 < k && rd.chance(1, 2);
-            if disturb {
+            let disturb = j + 1 < k && (rd.chance(1, 2) || bus);
+            if disturb && !bus {
                 let call = *rd.pick(&[1usize, 3, 8, 20, 30, 40, 41, 42, 43, 44, 45]);
                 if rd.chance(1, 3) {
                     dest.panic_at = Some(call);
@@ -52,6 +73,11 @@ pub fn generate(seed: u64, tier: &str, out: &mut dyn std::io::Write) {
             }
             // before the last request the target's resource limits change (visible in /proc/<tid>/limits): what an
             // earlier request read of the target's files must not be what this one reports
+            if j + 1 == k && bus {
+                if let Ok(f) = std::fs::OpenOptions::new().write(true).open(&bus_path) {
+                    let _ = f.set_len(8192);
+                }
+            }
             if j + 1 == k && grows {
                 if let Some(mt) = t.threads.last() {
                     if let Ok(mut f) = std::fs::OpenOptions::new().write(true).open(format!("/proc/{}/fd/{}", t.pid, mt.pipe_w)) {
